@@ -2,7 +2,7 @@
 from __future__ import annotations
 import ast
 from typing import List, Optional, Dict, Set, Tuple
-from ..model import path_conditions, Model, FuncInfo, ClassInfo, own_nodes, norm_stmt, AnalysisError, AnchorError, enclosing_stmt, parent, ancestors
+from ..model import path_conditions, effective_conditions, Model, FuncInfo, ClassInfo, own_nodes, norm_stmt, AnalysisError, AnchorError, enclosing_stmt, parent, ancestors
 from ..report import RuleResult
 from ..cfg import CFG, Node
 from ..flow import function_defs, names_loaded
@@ -86,7 +86,7 @@ def _capability_properties(model: Model, Q: RuleResult):
     for r in [r for r in own_nodes(hp.node) if isinstance(r, ast.Return)]:
         v = r.value
         txt = ast.unparse(v) if v is not None else "None"
-        conds = path_conditions(r)
+        conds = effective_conditions(r)
         if isinstance(v, ast.Name) and v.id == me:
             good = ("%s._is_hermitian" % me, True) in conds or ("%s.is_hermitian" % me, True) in conds
             why = "returning the operator itself is right only under its Hermitian flag"
